@@ -378,7 +378,8 @@ HARNESSES = {
 
 MAIN = """<%inherit file="base.html"/><%namespace file="ns.html" import="*"/>\\
 <%def name="c()" cached="True">[cached]</%def>\\
-m:${x}:${nsd(x)}:${c()}:<%include file="inc.html" args="y=x"/>"""
+<%! from mc.c16_cache import deco %><%def name="dd(a)" decorator="deco">dd${a}${x}</%def>\\
+m:${x}:${nsd(x)}:${c()}:${dd(x)}:<%include file="inc.html" args="y=x"/>"""
 BASE = """B(${self.body()})${x}"""
 NS = """<%def name="nsd(a)">ns${a}</%def>"""
 INC = """<%page args="y"/>i${y}"""
